@@ -322,6 +322,10 @@ fn end_to_end(model: &mut Model, report: &mut Report, code: &str, rules: &[&str]
 /// Replay the listed known findings of C01: `witness = {"rules": [...], "code": "..."}`.
 fn replay_known_findings(model: &mut Model, report: &mut Report) {
     for entry in report::known_findings("C01") {
+        // a fixed entry suppresses nothing: its witness lives in corpus/C01 and must pass
+        if entry["status"] == "fixed" {
+            continue;
+        }
         let id = entry["id"].as_str().unwrap_or("?").to_owned();
         let code = match entry["witness"]["code"].as_str() { Some(c) => c.to_owned(), None => continue };
         let names: Vec<String> = entry["witness"]["rules"].as_array().map(|a| a.iter().filter_map(|v| v.as_str().map(|s| s.to_owned())).collect()).unwrap_or_default();
